@@ -1,0 +1,79 @@
+package schema
+
+import (
+	"errors"
+	"reflect"
+	"strconv"
+	"strings"
+
+	"github.com/invopop/validation"
+)
+
+var objectType = reflect.TypeOf(Object{})
+
+// nullEntries looks for null entries inside the lists of a payload, like those
+// left behind by `"lines": [null]` in the source data. The JSON Schemas do not
+// allow them, the validation rules of the individual rows are never reached
+// for them, and they would otherwise be written back as they came. The error
+// provided uses the same structure as the regular validation errors.
+func nullEntries(v reflect.Value) error {
+	switch v.Kind() {
+	case reflect.Ptr, reflect.Interface:
+		if v.IsNil() {
+			return nil
+		}
+		return nullEntries(v.Elem())
+	case reflect.Struct:
+		if v.Type() == objectType {
+			return nullEntries(v.FieldByName("payload"))
+		}
+		errs := validation.Errors{}
+		t := v.Type()
+		for i := 0; i < t.NumField(); i++ {
+			f := t.Field(i)
+			if !f.IsExported() {
+				continue
+			}
+			name, _, _ := strings.Cut(f.Tag.Get("json"), ",")
+			if name == "-" {
+				continue
+			}
+			if err := nullEntries(v.Field(i)); err != nil {
+				if f.Anonymous && name == "" {
+					if es, ok := err.(validation.Errors); ok {
+						for k, e := range es {
+							errs[k] = e
+						}
+						continue
+					}
+				}
+				if name == "" {
+					name = f.Name
+				}
+				errs[name] = err
+			}
+		}
+		if len(errs) > 0 {
+			return errs
+		}
+	case reflect.Slice, reflect.Array:
+		errs := validation.Errors{}
+		for i := 0; i < v.Len(); i++ {
+			e := v.Index(i)
+			switch e.Kind() {
+			case reflect.Ptr, reflect.Interface, reflect.Map, reflect.Slice:
+				if e.IsNil() {
+					errs[strconv.Itoa(i)] = errors.New("must not be null")
+					continue
+				}
+			}
+			if err := nullEntries(e); err != nil {
+				errs[strconv.Itoa(i)] = err
+			}
+		}
+		if len(errs) > 0 {
+			return errs
+		}
+	}
+	return nil
+}
